@@ -34,7 +34,8 @@ BOUNDS = {
                           "register x3..x31, initial bytes of globals without initialiser (<=32 bytes), 16 bytes behind each "
                           "pointer argument, the byte filling all other memory, 4 external call results and what the callee "
                           "leaves in caller-saved registers",
-              "unwinding": "400 machine instructions, 400 IR instructions, call depth 8 (paths hitting a bound are cut and counted)"},
+              "unwinding": "400 machine instructions, 400 IR instructions, call depth 8, 120 paths per job (thorough 400), 15 s per "
+                           "branch-feasibility query (paths hitting a bound are cut and counted, nothing is claimed for them)"},
     "thorough": {"configurations": "every program x levels 0/1/2/s (s also selects ir_to_object(opt='size')) x {rv32im, rv32imc}",
                  "unwinding": "same"}}
 OUTSIDE = ["ARM, Thumb, m68k, mips, x86_64 and every other target (no ISA model): not claimed",
@@ -62,13 +63,30 @@ def _bits(ty):
     return irsem.bits_of(ty, 32)
 
 
+def _budgeted(eng):
+    """a branch whose feasibility the solver cannot decide within timeout_ms ends the path (cut, counted) instead of
+    being followed blindly: nothing is claimed for it"""
+    if getattr(eng, "_c05_budgeted", False):
+        return
+    orig = eng.decide
+
+    def decide(cond):
+        n = eng.stats["feas_unknown"]
+        r = orig(cond)
+        if eng.stats["feas_unknown"] != n:
+            raise core.PathCut("feasibility of a branch undecided within the solver budget")
+        return r
+    eng.decide = decide
+    eng._c05_budgeted = True
+
+
 class CodegenHarness(Harness):
     max_paths = 400
     max_decisions = 600
     cut_allowance = 10 ** 6          # unwinding cuts are expected and counted
     W = 80
     choose_limit = 8                 # symbolic addresses with <= 8 feasible values fork; wider ones stay symbolic (arrays)
-    timeout_ms = 30000
+    timeout_ms = 15000               # per feasibility query; undecided branches are cut and counted
     prove_timeout_ms = 240000        # 16-bit vs 32-bit divider equivalences take z3 ~10 s idle, cvc5 does not help
     shim_modules = ()
 
@@ -125,6 +143,8 @@ class CodegenHarness(Harness):
         if any(k == "unsupported" for k, _ in i["args"]):
             return dict(status="unsupported", why="argument type")
         sym = core.ENG is not None
+        if sym:
+            _budgeted(core.ENG)
         o = rv32.Z3OPS if sym else rv32.PYOPS
         out = _tv.term_out if sym else (lambda t: t)
         f = b.func
@@ -217,6 +237,8 @@ class CodegenHarness(Harness):
         frame = [(out(mem.load_byte(o.val(_c05.SP0 + j))), out(frame0[j]) if frame0[j] is not None else i["junk"])
                  for j in range(_c05.CALLER_FRAME)]
         wildc = (_tv.term_out(z3.Or(*wild)) if sym else True) if wild else False
+        if sym and core.ENG.current_model() is None:
+            raise core.PathCut("feasibility of the path undecided within the solver budget")
         return dict(status="ok", ref=ref, premise=premise, mach=dict(ret=ret, mem=mmem, trace=trace),
                     saved=saved, frame=frame, steps=steps, wild=wildc)
 
